@@ -127,7 +127,10 @@ func HarnessSSOConformant() {
 		vrtReqParam(rb, "RelayState", rs != "", rs, false, "")
 		if signed {
 			vrtCover("C07.sso-redirect-binding-signed")
-			alg := vrtIteStr(vrtBool("request.sha1"), vrtRSASHA1, vrtRSASHA256)
+			alg := vrtRSASHA256
+			if vrtBool("request.sha1") {
+				alg = vrtRSASHA1
+			}
 			certs, err := signature.ParseCertificates([]string{certText})
 			if err != nil || len(certs) != 1 {
 				vrtFail("harness.sp-certificate-does-not-parse")
@@ -291,5 +294,77 @@ func HarnessSSOSigned() {
 		if !otherMessage {
 			vrtAssert("C05.persisted-request-is-the-signed-request", st.createdReq != nil && st.createdReq.Id == a.Id)
 		}
+	}
+}
+
+// HarnessSSOSignedEncodingStyles (C07): a correctly signed Redirect-binding
+// AuthnRequest is accepted whatever legal percent-encoding style the service
+// provider used for the query string. The signature covers the octets as the
+// sender encoded them (saml-bindings 3.4.4.1), so a verifier has to take them
+// from the raw query string. Profile: a minimal request (ID, Version, Issuer),
+// one consumer endpoint; styles: 0 Go's (upper-case hex, '+' for a blank),
+// 1 lower-case hex digits, 2 "%20" for a blank.
+func init() { vrtHarnesses["HarnessSSOSignedEncodingStyles"] = HarnessSSOSignedEncodingStyles }
+
+func HarnessSSOSignedEncodingStyles() {
+	st := &vrtStore{noFaults: true}
+	st.respCert, st.respKey = vrtIdPKeyPair("idpkey")
+	vrtAssume(vrtBool("idpkey.cert.valid"))
+	vrtAssume(vrtBool("idpkey.match"))
+	sp, doc, certText := vrtConformantSPn(true, 0)
+	st.sp = sp
+	st.created = &vrtAuthReq{id: vrtStr("created.id")}
+	vrtNominalSigAlg = true
+	p := vrtNewProviderWith(st, false)
+
+	a := &samlp.AuthnRequestType{Id: vrtStr("authn.Id"), Version: "2.0", IssueInstant: vrtStr("authn.IssueInstant")}
+	vrtAssume(a.Id != "")
+	a.Issuer = vrtIssuerOf(string(doc.EntityID))
+	enc := vrtB64(vrtDeflate(vrtWireXML(a)))
+	rs := vrtStr("RelayState")
+	alg := vrtRSASHA256
+	if vrtBool("request.sha1") {
+		alg = vrtRSASHA1
+	}
+	certs, err := signature.ParseCertificates([]string{certText})
+	if err != nil || len(certs) != 1 {
+		vrtFail("harness.sp-certificate-does-not-parse")
+		return
+	}
+	vrtAssume(vrtKeyKind(certs[0].PublicKey) == 0)
+	style := vrtChoice("request.escapeStyle", 3)
+	if style != 0 {
+		vrtCover("C07.sso-redirect-binding-signed-other-escape-style")
+	}
+	eReq, eRs, eAlg := vrtEscapeStyle(style, enc), vrtEscapeStyle(style, rs), vrtEscapeStyle(style, alg)
+	octets := "SAMLRequest=" + eReq
+	if rs != "" {
+		octets += "&RelayState=" + eRs
+	}
+	octets += "&SigAlg=" + eAlg
+	sig := vrtB64(vrtSPSignRedirect(certs[0].PublicKey, octets, alg))
+	rb := vrtNewRequest("req", "GET", vrtSSOPath)
+	vrtReqNoExtras(rb)
+	vrtAssume(!vrtBool("req.parsefail"))
+	vrtReqParamRaw(rb, "SAMLRequest", true, eReq, enc)
+	vrtReqParamRaw(rb, "RelayState", rs != "", eRs, rs)
+	vrtReqParamRaw(rb, "SigAlg", true, eAlg, alg)
+	vrtReqParamRaw(rb, "Signature", true, vrtEscapeStyle(style, sig), sig)
+	rp, panicked := vrtServe(p, rb)
+	if panicked {
+		vrtOutcome("panic")
+		vrtPanicked("C07.conformant-authn-request-is-answered")
+		return
+	}
+	persists := st.count("CreateAuthRequest")
+	accepted := persists == 1 && rp.Kind == "redirect" && rp.Code == 303 && vrtSameURL(rp.Location, sp.LoginURL(st.created.id))
+	vrtOutcome(rp.Kind)
+	if accepted {
+		vrtOutcome("accepted")
+	}
+	vrtFinding("C07.redirect-signature-other-escape-style", style != 0)
+	vrtAssert("C07.signed-request-is-accepted-in-every-escape-style", accepted)
+	if accepted {
+		vrtAssert("C07.persisted-relaystate-is-the-decoded-relaystate", st.createdArgs[2] == rs)
 	}
 }
